@@ -63,6 +63,11 @@ func Scenarios() []gx.Sc {
 		gx.Sc{Name: "lim?ver=0.11.0.0&mmb=200&vs=6,6,39,39,40&parts=0,0,1,1,1&policy=input&faults=notleader&gates=" + retryGates, Q: 2, T: 3},
 		gx.Sc{Name: "lim?ver=0.10.2.0&mmb=200&vs=6,6,73,73,74&parts=0,0,1,1,1&policy=input&faults=notleader&gates=" + retryGates, Q: 2, T: 3},
 	)
+	// a lowered MaxRequestSize and messages that are each far below every limit but together exceed it, spread over two
+	// partitions so that no partition batch comes near MaxMessageBytes: the request must be cut, not refused as a whole
+	for _, g := range gens {
+		out = append(out, gx.Sc{Name: fmt.Sprintf("lim?ver=%s&mrs=%d&vs=5000,5000,5000,5000,8&parts=0,1,0,1,0&policy=input&closeany=1", g.ver, MRS), Q: 2, T: 3})
+	}
 	// a compression codec does not lift the message limit: an oversize message is refused under every codec and format
 	for _, g := range gens {
 		for _, codec := range []string{"gzip", "snappy", "lz4"} {
